@@ -262,6 +262,125 @@ def r1_coef_identities(ctx):
 
 
 # ---------------------------------------------------------------------------
+def _slice_roots(fn, expr, stop, before_line=None):
+    """names an expression depends on through local assignments, not expanding names in `stop`"""
+    out = set()
+    seen = set()
+    work = [(n.id, getattr(expr, "lineno", 10 ** 9)) for n in ast.walk(expr) if isinstance(n, ast.Name) and isinstance(n.ctx, ast.Load)]
+    assigns = {}
+    for st in walk_no_nested(fn):
+        if isinstance(st, ast.Assign):
+            for t in st.targets:
+                for x in ast.walk(t):
+                    if isinstance(x, ast.Name) and isinstance(x.ctx, ast.Store):
+                        assigns.setdefault(x.id, []).append(st)
+    params = {a.arg for a in fn.args.args}
+    while work:
+        nm, line = work.pop()
+        if (nm, line) in seen:
+            continue
+        seen.add((nm, line))
+        if nm in stop or nm in ("np", "abs", "math", "len", "int", "float"):
+            out.add(nm)
+            continue
+        defs = [d for d in assigns.get(nm, []) if d.lineno < line]
+        if not defs:
+            out.add(nm)
+            continue
+        for d in defs:
+            for n in ast.walk(d.value):
+                if isinstance(n, ast.Name) and isinstance(n.ctx, ast.Load):
+                    work.append((n.id, d.lineno))
+    return out - {"np", "abs", "math", "len", "int", "float"}
+
+
+def r1b_regime_selectors(ctx):
+    """Regime selection must be a function of the mass-normalised problem only, otherwise supplying the mass as None / vector /
+    matrix (same mathematical problem) would select different formulas; and the near-zero-eigenvalue override of the complex path
+    must not depend on the step (its accumulated error is |lambda| * t, independent of h)."""
+    fn = ctx.src.func(UTIL, "get_su_coef")
+    NORMAL = {"C", "wo2", "w2", "h", "rbmodes", "rfmodes", "n"}
+    names = _regime_names(fn)
+    preds = []
+    for r in ("under", "crit", "over"):
+        if r in names:
+            preds.append((f"{r}-damped partition", names[r][1].value, names[r][1]))
+    if "rbd" in names:
+        preds.append(("damped rigid-body partition", names["rbd"][1].value, names["rbd"][1]))
+    for st in walk_no_nested(fn):
+        if isinstance(st, ast.Assign) and isinstance(st.targets[0], ast.Name):
+            if st.targets[0].id == "pvdisp":
+                preds.append(("damped rigid-body displacement cut-off", st.value, st))
+            if st.targets[0].id == "pvrb" and any(isinstance(x, ast.Compare) for x in ast.walk(st.value)):
+                preds.append(("auto-detected rigid-body partition", st.value, st))
+    for label, expr, st in preds:
+        roots = _slice_roots(fn, expr, NORMAL)
+        raw = roots & {"m", "b", "k"}
+        ok = not raw
+        ctx.check(ok, f"get_su_coef: the {label} depends only on mass-normalised quantities (C = b/2m, wo2 = k/m, w2, h)", st,
+                  None if ok else f"`{ast.unparse(expr)[:80]}` reads the raw {sorted(raw)}: the same system given with a mass vector and with m=None "
+                                  "(mass-normalised b, k) would be sent to different coefficient formulas",
+                  key=f"C01-R1b|get_su_coef|{label}")
+    ctx.check(len(preds) >= 6, f"regime-selector rule bound to {len(preds)} predicates", fn, nontrivial=False)
+    # the damped-rb formulas use beta = 2 C of the selected rows
+    fn2 = ctx.src.func(SOLVEUNC, "SolveUnc._get_complex_su_coefs")
+    sel = [st for st in walk_no_nested(fn2) if isinstance(st, ast.Assign) and isinstance(st.targets[0], ast.Name) and st.targets[0].id == "rb"]
+    if len(sel) != 1:
+        raise AnchorError("_get_complex_su_coefs: `rb = ...` selector")
+    roots = _slice_roots(fn2, sel[0].value, {"lam", "h", "pc", "self"})
+    ok = roots <= {"lam"}
+    ctx.check(ok, "_get_complex_su_coefs: the near-zero-eigenvalue selector depends on lambda only", sel[0],
+              None if ok else f"selector depends on {sorted(roots)}: replacing e^(lambda h) by 1 accumulates an error |lambda| t that does not shrink with h, "
+                              "so a cut-off scaled by h turns slow (non-rigid) modes into pure integrators",
+              key="C01-R1b|_get_complex_su_coefs|selector")
+    # rigid-body overrides are the lambda -> 0 limits of the elastic formulas (DESIGN C01-R1(e))
+    lam, h = F.sym("lam"), F.sym("h")
+
+    def cond(test, ev):
+        return True if "any()" in ast.unparse(test) else None
+
+    ev = Evaluator(env={"lam": lam, "h": h}, src=ctx.src, cond=cond, store_accept=lambda b_, i, st: i == "el")
+    ev.run(fn2.body)
+    el = {}
+    rbv = {}
+    for b_, idx, val, st in ev.stores:
+        if idx == "el":
+            el[b_] = (val, st)
+        if idx == "rb":
+            rbv[b_] = (val, st)
+    Fe = ev.env.get("Fe")
+    for nm in ("Ae", "Be"):
+        if nm not in el or nm not in rbv or is_unknown(el[nm][0]) or is_unknown(rbv[nm][0]):
+            ctx.error(f"_get_complex_su_coefs: {nm}", fn2)
+            continue
+        sr = F.series(el[nm][0], "lam", 0)
+        ok = sr.val >= 0 and sr.coef(0).equals(rbv[nm][0])
+        ctx.check(ok, f"_get_complex_su_coefs: the rigid-body override of {nm} is the lambda->0 limit of the elastic formula", rbv[nm][1],
+                  None if ok else {"limit": repr(sr.coef(0)) if sr.val >= 0 else "singular", "override": repr(rbv[nm][0])})
+    if "Ae" in el and "Be" in el and not is_unknown(el["Ae"][0]) and not is_unknown(el["Be"][0]):
+        E = F.exp(lam * h)
+        ok = (el["Ae"][0] + el["Be"][0]).equals((E - 1) / lam)
+        ctx.check(ok, "_get_complex_su_coefs: Ae + Be = (e^(lambda h) - 1)/lambda (constant-force integral)", el["Ae"][1])
+        # Be = int_0^h e^{lam (h - t)} t/h dt = (e^{lam h} - 1 - lam h)/(lam^2 h)
+        ok = el["Be"][0].equals((E - 1 - lam * h) / (lam * lam * h))
+        ctx.check(ok, "_get_complex_su_coefs: Be = (e^(lambda h) - 1 - lambda h)/(lambda^2 h) (ramp-force integral)", el["Be"][1],
+                  None if ok else repr(el["Be"][0]))
+    ok = Fe is not None and not is_unknown(Fe) and Fe.equals(F.exp(lam * h))
+    ctx.check(ok, "_get_complex_su_coefs: Fe = e^(lambda h)", fn2)
+    if "Fe" in rbv and not is_unknown(rbv["Fe"][0]):
+        ctx.check(rbv["Fe"][0].equals(1), "_get_complex_su_coefs: the rigid-body override of Fe is 1", rbv["Fe"][1])
+    # get_su_eig rigid-body constants equal the undamped rb coefficient set with m = 1:  G = h, A = h^2/3, Ap = h/2
+    fn3 = ctx.src.func(SOLVEUNC, "SolveUnc.get_su_eig")
+    ev = Evaluator(env={"self.h": h}, src=ctx.src, cond=lambda t, ev: True if ast.unparse(t) in ("self.rbsize", "h") else None)
+    ev.run(fn3.body)
+    want = {"pc.G": h, "pc.A": h * h / 3, "pc.Ap": h / 2}
+    for nm, w in want.items():
+        v = ev.env.get(nm)
+        ok = v is not None and not is_unknown(v) and v.equals(w)
+        ctx.check(ok, f"get_su_eig: {nm} equals the undamped rigid-body coefficient for unit mass ({w})", fn3, None if ok else repr(v))
+
+
+# ---------------------------------------------------------------------------
 # C01-R3  partition-space typing, C01-R5 state-half typing (same engine)
 def r3_partition_typing(ctx):
     from . import ode_spaces as O
@@ -364,6 +483,7 @@ def r4_frame_typing(ctx):
 
 RULES = [
     ("C01-R1", r1_coef_identities, 150),
+    ("C01-R1b", r1b_regime_selectors, 14),
     ("C01-R3", r3_partition_typing, 60),
     ("C01-R4", r4_frame_typing, 6),
 ]
